@@ -6,6 +6,7 @@
 #include "replay_util.h"
 #include <cmath>
 #include <vector>
+#include <unistd.h>
 #include "colvarmodule.h"
 #include "colvarproxy.h"
 #include "colvarbias.h"
@@ -25,6 +26,29 @@ static sample eval(colvarproxy_stub *proxy, double x, long step) {
   std::vector<cvm::rvector> &f = *(proxy->modify_atom_applied_forces()); f[0] = cvm::rvector(0.0, 0.0, 0.0); f[1] = cvm::rvector(0.0, 0.0, 0.0);
   proxy->colvars->it = step; proxy->colvars->calc();
   sample s; s.E = proxy->colvars->biases[0]->get_energy(); s.F = (*(proxy->modify_atom_applied_forces()))[1].x; return s;
+}
+// moving centre of a harmonic restraint on a periodic variable (dihedral): the centre goes from 170 to 190 degrees in 10 steps, i.e. through the
+// +-180 seam; the variable stays at 175.  The accumulated work written to the trajectory must equal sum_t F(t) * dc with dc the 2-degree increment.
+class run_proxy_r : public colvarproxy_stub { public: run_proxy_r() : colvarproxy_stub() { b_simulation_running = true; } };
+static int moving_periodic_centre() {
+  char dir[] = "/var/tmp/cvmcXXXXXX"; if (!mkdtemp(dir)) return 2; if (chdir(dir)) return 2;
+  run_proxy_r *p = new run_proxy_r(); p->set_unit_system("real", false); p->set_output_prefix("mc"); p->colvars->setup_input(); p->colvars->setup_output(); for (int a = 0; a < 4; a++) p->init_atom(a + 1);
+  double const k = 0.01;
+  if (p->colvars->read_config_string("colvarsTrajFrequency 1\ncolvarsRestartFrequency 0\ncolvar {\n  name phi\n  dihedral {\n    group1 { atomNumbers 1 }\n    group2 { atomNumbers 2 }\n    group3 { atomNumbers 3 }\n    group4 { atomNumbers 4 }\n  }\n}\n"
+     "harmonic {\n  name h\n  colvars phi\n  forceConstant 0.01\n  centers 170.0\n  targetCenters 190.0\n  targetNumSteps 10\n  outputCenters on\n  outputAccumulatedWork on\n}\n")) { std::cout << "REPLAY: configuration rejected\n"; delete p; return 3; }
+  double const a = 175.0 * 3.14159265358979323846 / 180.0;
+  for (int s = 0; s <= 10; s++) { std::vector<cvm::atom_pos> &pos = *(p->modify_atom_positions());
+    pos[0] = cvm::atom_pos(1, 0, 0); pos[1] = cvm::atom_pos(0, 0, 0); pos[2] = cvm::atom_pos(0, 0, 1); pos[3] = cvm::atom_pos(std::cos(a), std::sin(a), 1); p->colvars->it = s; p->colvars->calc(); }
+  p->post_run(); delete p;
+  std::ifstream is("mc.colvars.traj"); if (!is) { std::cout << "REPLAY: no trajectory\n"; return 3; }
+  std::string line; int bad = 0, n = 0; std::ostringstream first; double W = 0.0;
+  while (std::getline(is, line)) { if (line.size() == 0 || line[0] == '#') continue; std::istringstream ls(line); long st; double x, c, w; if (!(ls >> st >> x >> c >> w)) continue; n++;
+    // centre at step st is 170 + 2 st (mod 360); restraint force on the variable F = -k (x - c) over the shortest image; work accumulated on steps 1..10
+    if (st >= 1) { double cc = 170.0 + 2.0 * st; double d = 175.0 - cc; d -= 360.0 * std::floor(d / 360.0 + 0.5); W += -k * d * 2.0; }
+    if (std::fabs(w - W) > 1e-6 * (1.0 + std::fabs(W))) { bad++; if (first.str().empty()) first << "step " << st << " (centre " << c << "): written accumulated work " << w << ", sum of force times centre increment " << W; } }
+  if (n == 0) { std::cout << "REPLAY: empty trajectory\n"; return 3; }
+  if (bad) REPLAY_FAIL("harmonic restraint on a dihedral with the centre moving 170 -> 190 degrees in 10 steps: " << bad << " of " << n << " lines report an accumulated work different from sum F dc; " << first.str());
+  REPLAY_PASS("accumulated work of a centre moving through the +-180 seam equals sum F dc on " << n << " lines");
 }
 // harmonic restraint on a PERIODIC variable (dihedral, period 360): centre near the -180/180 seam, positions on both sides of it.  The energy must use
 // the shortest-image difference, and the force applied on the variable must be minus its derivative.
@@ -57,6 +81,7 @@ int main(int argc, char **argv) {
   if (argc < 3) return 2; std::string task(argv[1]); replay_vals v; if (!v.load(argv[2])) return 2;
   double const k = usable(v.d("e_force_k"), 0.5, 9.5, 2.5), w = usable(v.d("e_width"), 0.3, 2.3, 0.7);
   bool const walls = task.find("walls") == 0;
+  if (task == "update_centers_body") return moving_periodic_centre();
   if (!walls && task.find("harmonic") != 0) { std::cout << "REPLAY: no native driver for task " << task << "\n"; return 3; }
   if (!walls) return harmonic_periodic(k, w, usable(v.d("e_center"), 0.0, 50.0, 13.0));
   std::ostringstream conf; conf.precision(17);
